@@ -565,7 +565,7 @@ RULES = [("ply-builder", rule_ply_builder), ("filter", rule_filter), ("probe", r
 # what the clauses above take for granted, decided here as well: the attack tables the generators read (C06), make/unmake
 # leaving the position intact around the legality probe (C02), and the bookkeeping that later move generation depends on
 # (castling rights, en-passant file, piece placement: C03)
-RULES += engine.premise_rules("c06", ["rays", "magic", "scheme", "mask-edges", "ray-walk", "leapers", "subset-enum"])
+RULES += engine.premise_rules("c06", ["bitboard-ops", "rays", "magic", "scheme", "mask-edges", "ray-walk", "leapers", "subset-enum"])
 RULES += engine.premise_rules("c02", ["writeset", "stack", "counter", "ep-restore", "inverse-seq", "probe-pair"])
 RULES += engine.premise_rules("c03", ["revocation-table", "rights-monotone", "ep", "placement"])
 
